@@ -363,6 +363,18 @@ def f_trimesh(variant):
         elif variant == "attrs":
             m.face_attributes["w"] = rng.random(len(F))
             m.vertex_attributes["w"] = rng.random((len(V), 2))
+        elif variant == "default_vertex_colors_edited":
+            # no colours assigned: the DEFAULT face colours are read, then the default vertex
+            # colours are read and edited in place - colours that exist only as an altered default
+            _ = m.visual.face_colors
+            vc = m.visual.vertex_colors
+            vc[int(rng.integers(len(V)))] = [11, 22, 33, 255]
+            vc[0] = [200, 100, 50, 255]
+        elif variant == "default_face_colors_edited":
+            _ = m.visual.vertex_colors
+            fc = m.visual.face_colors
+            fc[int(rng.integers(len(F)))] = [11, 22, 33, 255]
+            fc[0] = [200, 100, 50, 255]
         return m
 
     return make
@@ -484,7 +496,7 @@ def f_voxel(enc):
 
 def factories():
     out = []
-    for v in ("plain", "face", "vertex", "texture", "attrs"):
+    for v in ("plain", "face", "vertex", "texture", "attrs", "default_vertex_colors_edited", "default_face_colors_edited"):
         out.append(("Trimesh", v, f_trimesh(v)))
     for c in ("Box", "Sphere", "Cylinder", "Capsule", "Extrusion"):
         out.append((c, "params", f_primitive(c)))
